@@ -196,7 +196,8 @@ def get_smallmij(vi: np.ndarray, vj: np.ndarray, W: np.ndarray, alpha_vec: np.nd
     """
     prod = np.matmul(W, vj - vi)
     prod[prod < 0] = 0
-    smallmij = (prod / alpha_vec).min()
+    # Divide each facet product by that facet's own alpha (alpha_vec may come as a column).
+    smallmij = (prod / np.ravel(alpha_vec)).min()
 
     return smallmij
 
